@@ -8,6 +8,7 @@ Driver of C19.  `<esc>` = every byte outside [A-Za-z0-9_.-] as %XX; JSON is comp
      real `json.Unmarshal` into a fresh v2.<Struct> then `json.Marshal` (j1), and once more from j1 (j2);
      model: `decode` / `encode` over the shape unfolded from the regenerated field table of <Struct>.
 `pair fc|host|retry <esc wire> => ok:<esc j1>:<esc j2> | err`   the three custom pairs (real methods vs `fcU/fcM`, …).
+`fix <Struct> <esc wire> => ok:<esc j1>:<esc j2> | err`        every v2 struct incl. custom marshalers (predicate only).
 `dur =<esc s> => ok:<esc formatted> | err`                      `time.ParseDuration` + `String()` vs `parseDur` / `fmtDur`.
 `sample <esc path> => unloadable:<why> | ok:<h1>:<h2>:lost<n>`  hashes of the key-sorted, name-sorted first and second dump, and
                                                                  the number of scalars of the input the first dump no longer has
@@ -95,6 +96,11 @@ def run (caseToks impl : List String) : String :=
     match getJson w, implPair impl with
     | some w, some im => verdict (cycle2 retryU retryM w) im
     | _, _ => "E E bad-case"
+  | ["fix", _, _] =>
+    match implPair impl with
+    | some none => "A S err"
+    | some (some (a, b)) => s!"A {if a == b then "S" else "V"} -"
+    | none => "E E bad-impl"
   | ["dur", s] =>
     match C20.unescStr (s.toList.drop 1), impl with
     | some s, [t] =>
